@@ -362,3 +362,18 @@ Definition ftp_monN (n sw W cw : N) (m i o : N) : option (N * bool) :=
   | None => None
   | Some (g, ok) => Some (tp_enc W g, ok)
   end.
+
+(* packed model state (W-bit slots) for lock-step monitors *)
+Definition pfsm_code (f : pfsm) : N := match f with P_DISPATCH => 0 | P_SEND => 1 | P_RETRY => 2 end.
+Definition pfsm_of (c : N) : pfsm := match c with 0 => P_DISPATCH | 1 => P_SEND | _ => P_RETRY end.
+Definition ptx_nums (s : ptx) : list N :=
+  [x_cred s; x_tosend s; x_await s; x_rd s; x_wr s; x_ak s; x_tseq s; b2n (x_retry s); b2n (x_up s); x_ncred s;
+   x_nack s; x_timer s; pfsm_code (x_fsm s); b2n (x_busy s); b2n (x_stale s)] ++ x_bufs s.
+Definition ptx_enc (W : N) (s : ptx) : N := packb W (ptx_nums s).
+Definition ptx_dec (W : N) (nb : nat) (m : N) : ptx :=
+  let l := unpackb W (15 + nb) m in
+  let f k := nth k l 0 in
+  {| x_cred := f 0%nat; x_tosend := f 1%nat; x_await := f 2%nat; x_rd := f 3%nat; x_wr := f 4%nat; x_ak := f 5%nat;
+     x_bufs := skipn 15 l; x_tseq := f 6%nat; x_retry := n2b (f 7%nat); x_up := n2b (f 8%nat); x_ncred := f 9%nat;
+     x_nack := f 10%nat; x_timer := f 11%nat; x_fsm := pfsm_of (f 12%nat); x_busy := n2b (f 13%nat);
+     x_stale := n2b (f 14%nat) |}.
